@@ -52,6 +52,16 @@ def script(sc):
                 sc.stats["readonly_cmds"] += 1
             sc.do_edit(author=rng.choice(sc.sessions), f=fb, kinds=["ins"])
             sc.ops.append("two-file-person-then-agent")
+        if rng.random() < 0.3 and len(sc.files) > 1:
+            # an agent's reported lines in fa are shifted by a person's edit that nobody reports; then only ANOTHER file, which the
+            # person alone has touched, is staged and committed: the commit-time checkpoint is the only one that can still re-base the
+            # agent's pending lines of fa (with the redundant-checkpoint variants an earlier one already did)
+            fa, fb = rng.sample(sc.files, 2)
+            sc.do_edit(author=rng.choice(sc.sessions), f=fa, kinds=["ins"])
+            sc.do_edit(author="human", f=fa, kinds=["ins"], ckpt=False)
+            sc.do_edit(author="human", f=fb, kinds=["ins"], ckpt=False)
+            sc.g("add", "--", fb); sc.g("commit", "-q", "-m", "only the person's file", "--", fb)
+            sc.ops.append("person-shifts-agent-lines-then-commits-another-file")
         kind = rng.choice(["all", "all", "files", "hunks"])
         if kind == "files":
             sc.op_partial_commit()
